@@ -5,7 +5,9 @@ use ntex_bytes::ByteString;
 use ntex_service::{Pipeline, Service, ServiceCtx, cfg::Cfg};
 use ntex_util::{HashMap, HashSet, future::Either, future::join};
 
-use crate::error::{DispatcherError, PayloadError, ProtocolError, SpecViolation};
+use crate::error::{
+    DecodeError, DispatcherError, PayloadError, ProtocolError, SpecViolation,
+};
 use crate::payload::{Payload, PayloadStatus};
 use crate::v5::codec::{Decoded, DisconnectReasonCode, Encoded, Packet};
 use crate::v5::shared::{Ack, MqttShared};
@@ -202,14 +204,18 @@ where
                 .await
             }
             Decoded::PayloadChunk(buf, eof) => {
-                let pl = self.inner.sink.payload.take().unwrap();
-                pl.feed_data(buf);
-                if eof {
-                    pl.feed_eof();
+                if let Some(pl) = self.inner.sink.payload.take() {
+                    pl.feed_data(buf);
+                    if eof {
+                        pl.feed_eof();
+                    } else {
+                        self.inner.sink.payload.set(Some(pl));
+                    }
+                    Ok(None)
                 } else {
-                    self.inner.sink.payload.set(Some(pl));
+                    // publish packet has been refused
+                    Err(ProtocolError::Decode(DecodeError::UnexpectedPayload).into())
                 }
-                Ok(None)
             }
             Decoded::Packet(Packet::PublishAck(pkt), ..) => {
                 if let Err(e) = self.inner.sink.pkt_ack(Ack::Publish(pkt)) {
